@@ -386,7 +386,21 @@ def rule_scan_loop(rep):
             st.targets[0].id for st in loop.body
             if isinstance(st, ast.Assign) and isinstance(st.targets[0], ast.Name) and unparse(st.value) == f"{sym}.prior"
         ]
-        r.need(len(last_names) == 1, "loop-carried last priority not found")
+        if len(last_names) != 1:
+            # the variable the cut-off test compares the terminal's priority with
+            cand = [
+                st for st in loop.body
+                if isinstance(st, ast.Assign) and isinstance(st.targets[0], ast.Name) and f"{sym}.prior" in unparse(st.value)
+            ]
+            r.need(len(cand) == 1, "loop-carried last priority not found")
+            r.violation(
+                "_token_recognition:last-prior",
+                f"the priority the cut-off compares with is updated as `{unparse(cand[0])[:70]}`, not set to the priority of "
+                "the terminal just tried: in a state whose first (higher priority) terminal does not match, terminals of "
+                "the same lower priority as a token already found are no longer tried",
+                node=cand[0],
+            )
+            return
         last = last_names[0]
         env2[last] = N("LAST")
         tok_list = None
